@@ -470,4 +470,83 @@ theorem queryStrip_self (p : Str) (h : '?' ∉ p) : queryStrip p = p := by
     simp only [queryStrip] at this ⊢
     rw [List.takeWhile_cons_of_pos (by simpa using hc), this]
 
+/-! ### strict UTF-8 decoding -/
+
+theorem isCont_iff (c : UInt8) : isCont c = true ↔ 128 ≤ c.toNat ∧ c.toNat ≤ 191 := by
+  simp [isCont, UInt8.le_iff_toNat_le]
+
+theorem toNat_ofNat_valid (n : Nat) (h : n < 0xD800 ∨ (0xE000 ≤ n ∧ n < 0x110000)) : (Char.ofNat n).toNat = n := by
+  have hv : n.isValidChar := by
+    unfold Nat.isValidChar
+    rcases h with h | h
+    · left; omega
+    · right; omega
+  simp [Char.ofNat, hv, Char.ofNatAux, Char.toNat]
+
+/-- bytes that never occur in valid UTF-8: C0, C1 (lead bytes of overlong two-byte
+    forms such as `c0 ae` = '.', `c0 af` = '/', `c0 80` = NUL) and F5..FF -/
+theorem utf8Decode_forbidden (x : Bytes) (s : Str) (h : utf8Decode x = some s) :
+    ∀ c ∈ x, c ≠ 0xC0 ∧ c ≠ 0xC1 ∧ c < 0xF5 := by
+  fun_induction utf8Decode x generalizing s <;>
+    simp_all [isCont_iff, UInt8.lt_iff_toNat_lt, UInt8.le_iff_toNat_le, ← UInt8.toNat_inj] <;> grind
+
+/-- the characters below U+0080 of a decoded string are exactly the bytes below 0x80, in order -/
+theorem utf8Decode_ascii (x : Bytes) (s : Str) (h : utf8Decode x = some s) :
+    (s.filter (fun c => c.toNat < 128)).map Char.toNat = (x.filter (· < 0x80)).map UInt8.toNat := by
+  fun_induction utf8Decode x generalizing s
+  case case1 => simp_all
+  case case2 a rest ha ih =>
+    simp only [Option.map_eq_some_iff] at h
+    obtain ⟨s', hs', rfl⟩ := h
+    have := ih s' hs'
+    have ha' : a.toNat < 128 := by simpa [UInt8.lt_iff_toNat_lt] using ha
+    have hc : (Char.ofNat a.toNat).toNat = a.toNat := toNat_ofNat_valid _ (by omega)
+    simp [hc, ha', ha, this]
+  case case4 a h1 h2 h3 b1 r hc ih =>
+    simp only [Option.map_eq_some_iff] at h
+    obtain ⟨s', hs', rfl⟩ := h
+    have := ih s' hs'
+    simp only [isCont_iff] at hc
+    simp only [UInt8.lt_iff_toNat_lt, UInt8.toNat_ofNat, Nat.not_lt] at h1 h2 h3
+    have hn : (Char.ofNat ((a.toNat - 192) * 64 + lo6 b1)).toNat = (a.toNat - 192) * 64 + lo6 b1 :=
+      toNat_ofNat_valid _ (by unfold lo6; omega)
+    have ha : ¬ a < 128 := by simp [UInt8.lt_iff_toNat_lt]; omega
+    have hb : ¬ b1 < 128 := by simp [UInt8.lt_iff_toNat_lt]; omega
+    have hge : ¬ (a.toNat - 192) * 64 + lo6 b1 < 128 := by unfold lo6; omega
+    simp [hn, ha, hb, hge, this]
+  case case7 a h1 h2 h3 h4 b1 b2 r hc ih =>
+    simp only [Option.map_eq_some_iff] at h
+    obtain ⟨s', hs', rfl⟩ := h
+    have := ih s' hs'
+    simp only [Bool.and_eq_true, Bool.or_eq_true, isCont_iff, bne_iff_ne, ne_eq, decide_eq_true_eq,
+      UInt8.le_iff_toNat_le, ← UInt8.toNat_inj, UInt8.toNat_ofNat] at hc
+    simp only [UInt8.lt_iff_toNat_lt, UInt8.toNat_ofNat, Nat.not_lt] at h1 h2 h3 h4
+    obtain ⟨⟨⟨hb1, hb2⟩, he0⟩, hed⟩ := hc
+    have hn : (Char.ofNat ((a.toNat - 224) * 4096 + lo6 b1 * 64 + lo6 b2)).toNat =
+        (a.toNat - 224) * 4096 + lo6 b1 * 64 + lo6 b2 :=
+      toNat_ofNat_valid _ (by unfold lo6; omega)
+    have ha : ¬ a < 128 := by simp [UInt8.lt_iff_toNat_lt]; omega
+    have hb : ¬ b1 < 128 := by simp [UInt8.lt_iff_toNat_lt]; omega
+    have hb' : ¬ b2 < 128 := by simp [UInt8.lt_iff_toNat_lt]; omega
+    have hge : ¬ (a.toNat - 224) * 4096 + lo6 b1 * 64 + lo6 b2 < 128 := by unfold lo6; omega
+    simp [hn, ha, hb, hb', hge, this]
+  case case10 a h1 h2 h3 h4 h5 b1 b2 b3 r hc ih =>
+    simp only [Option.map_eq_some_iff] at h
+    obtain ⟨s', hs', rfl⟩ := h
+    have := ih s' hs'
+    simp only [Bool.and_eq_true, Bool.or_eq_true, isCont_iff, bne_iff_ne, ne_eq, decide_eq_true_eq,
+      UInt8.le_iff_toNat_le, ← UInt8.toNat_inj, UInt8.toNat_ofNat] at hc
+    simp only [UInt8.lt_iff_toNat_lt, UInt8.toNat_ofNat, Nat.not_lt] at h1 h2 h3 h4 h5
+    obtain ⟨⟨⟨⟨hb1, hb2⟩, hb3⟩, hf0⟩, hf4⟩ := hc
+    have hn : (Char.ofNat ((a.toNat - 240) * 262144 + lo6 b1 * 4096 + lo6 b2 * 64 + lo6 b3)).toNat =
+        (a.toNat - 240) * 262144 + lo6 b1 * 4096 + lo6 b2 * 64 + lo6 b3 :=
+      toNat_ofNat_valid _ (by unfold lo6; omega)
+    have ha : ¬ a < 128 := by simp [UInt8.lt_iff_toNat_lt]; omega
+    have hb : ¬ b1 < 128 := by simp [UInt8.lt_iff_toNat_lt]; omega
+    have hb' : ¬ b2 < 128 := by simp [UInt8.lt_iff_toNat_lt]; omega
+    have hb'' : ¬ b3 < 128 := by simp [UInt8.lt_iff_toNat_lt]; omega
+    have hge : ¬ (a.toNat - 240) * 262144 + lo6 b1 * 4096 + lo6 b2 * 64 + lo6 b3 < 128 := by unfold lo6; omega
+    simp [hn, ha, hb, hb', hb'', hge, this]
+  all_goals simp_all
+
 end Px.Static
